@@ -589,6 +589,8 @@ struct Sample {
   feel: String,
   expected: Js,
   tck: Option<String>,
+  /// what the typed answer decodes to when it differs from `expected` (temporal values keep their type tag)
+  expected_tck: Option<Js>,
   class: String,
 }
 
@@ -657,64 +659,80 @@ fn samples(thorough: bool) -> Vec<Sample> {
     }
   }
   for (s, class) in &strings {
-    out.push(Sample { feel: feel_string(s), expected: Js::Str(s.clone()), tck: Some(tck_simple("xsd:string", s)), class: format!("string:{}", class) });
+    out.push(Sample { feel: feel_string(s), expected: Js::Str(s.clone()), tck: Some(tck_simple("xsd:string", s)), expected_tck: None, class: format!("string:{}", class) });
   }
   let numbers = [
     "0", "1", "-1", "10", "0.5", "-0.5", "0.001", "-0.001", "0.00000000000000000001", "1234567890123456789012345678901234", "-1234567890123456789012345678901234", "12345678901234567890123456789012.34", "1000000000000000000000000000000", "0.1",
     "100", "1.10", "99999999999999999999", "0.000001", "123456.789",
   ];
   for n in numbers {
-    out.push(Sample { feel: n.to_string(), expected: Js::Num(n.trim_start_matches('+').to_string()), tck: Some(tck_simple("xsd:decimal", n)), class: format!("number:{}", if n.contains('.') { "fraction" } else if n.len() > 18 { "long-integer" } else { "integer" }) });
+    out.push(Sample { feel: n.to_string(), expected: Js::Num(n.trim_start_matches('+').to_string()), tck: Some(tck_simple("xsd:decimal", n)), expected_tck: None, class: format!("number:{}", if n.contains('.') { "fraction" } else if n.len() > 18 { "long-integer" } else { "integer" }) });
   }
-  out.push(Sample { feel: "true".into(), expected: Js::Bool(true), tck: Some(tck_simple("xsd:boolean", "true")), class: "boolean".into() });
-  out.push(Sample { feel: "false".into(), expected: Js::Bool(false), tck: Some(tck_simple("xsd:boolean", "false")), class: "boolean".into() });
-  out.push(Sample { feel: "null".into(), expected: Js::Null, tck: Some("{\"simple\":{\"isNil\":true}}".into()), class: "null".into() });
+  out.push(Sample { feel: "true".into(), expected: Js::Bool(true), tck: Some(tck_simple("xsd:boolean", "true")), expected_tck: None, class: "boolean".into() });
+  out.push(Sample { feel: "false".into(), expected: Js::Bool(false), tck: Some(tck_simple("xsd:boolean", "false")), expected_tck: None, class: "boolean".into() });
+  out.push(Sample { feel: "null".into(), expected: Js::Null, tck: Some("{\"simple\":{\"isNil\":true}}".into()), expected_tck: None, class: "null".into() });
   // lists and contexts to depth 3 over a few atoms
-  let atoms: Vec<(String, Js, String)> = vec![
-    ("1".into(), Js::Num("1".into()), tck_simple("xsd:decimal", "1")),
-    ("\"a\\\"b\"".into(), Js::Str("a\"b".into()), tck_simple("xsd:string", "a\"b")),
-    ("true".into(), Js::Bool(true), tck_simple("xsd:boolean", "true")),
-    ("null".into(), Js::Null, "{\"simple\":{\"isNil\":true}}".into()),
+  // atoms: FEEL text, JSON value through /evaluate, typed value, value the typed answer decodes to
+  let temporal: Vec<(&str, &str, &str)> = vec![
+    ("date(\"2020-01-02\")", "xsd:date", "2020-01-02"),
+    ("time(\"10:00:00\")", "xsd:time", "10:00:00"),
+    ("date and time(\"2020-01-02T10:00:00\")", "xsd:dateTime", "2020-01-02T10:00:00"),
+    ("duration(\"P1D\")", "xsd:duration", "P1D"),
+    ("duration(\"P1Y\")", "xsd:duration", "P1Y"),
   ];
-  let mut level: Vec<(String, Js, String)> = atoms.clone();
+  let mut atoms: Vec<(String, Js, String, Js)> = vec![
+    ("1".into(), Js::Num("1".into()), tck_simple("xsd:decimal", "1"), Js::Num("1".into())),
+    ("\"a\\\"b\"".into(), Js::Str("a\"b".into()), tck_simple("xsd:string", "a\"b"), Js::Str("a\"b".into())),
+    ("true".into(), Js::Bool(true), tck_simple("xsd:boolean", "true"), Js::Bool(true)),
+    ("null".into(), Js::Null, "{\"simple\":{\"isNil\":true}}".into(), Js::Null),
+  ];
+  for (f, typ, text) in &temporal {
+    // through /evaluate a temporal value is rendered as a string holding its text; typed, it keeps its kind
+    atoms.push((f.to_string(), Js::Str(text.to_string()), tck_simple(typ, text), Js::Str(format!("{}:{}", typ, text))));
+  }
+  let mut level: Vec<(String, Js, String, Js)> = atoms.clone();
   for depth in 1..=3 {
-    let mut next = vec![];
+    let mut next: Vec<(String, Js, String, Js)> = vec![];
     let take = if thorough || depth < 3 { level.len() } else { level.len().min(12) };
-    next.push(("[]".to_string(), Js::Arr(vec![]), "{\"list\":{\"items\":[],\"isNil\":false}}".to_string()));
-    for (f, j, t) in level.iter().take(take) {
-      next.push((format!("[{}]", f), Js::Arr(vec![j.clone()]), format!("{{\"list\":{{\"items\":[{}],\"isNil\":false}}}}", t)));
-      next.push((format!("[{}, 1]", f), Js::Arr(vec![j.clone(), Js::Num("1".into())]), format!("{{\"list\":{{\"items\":[{},{}],\"isNil\":false}}}}", t, tck_simple("xsd:decimal", "1"))));
+    next.push(("[]".to_string(), Js::Arr(vec![]), "{\"list\":{\"items\":[],\"isNil\":false}}".to_string(), Js::Arr(vec![])));
+    let one = tck_simple("xsd:decimal", "1");
+    for (f, j, t, jt) in level.iter().take(take) {
+      next.push((format!("[{}]", f), Js::Arr(vec![j.clone()]), format!("{{\"list\":{{\"items\":[{}],\"isNil\":false}}}}", t), Js::Arr(vec![jt.clone()])));
+      next.push((
+        format!("[{}, 1]", f),
+        Js::Arr(vec![j.clone(), Js::Num("1".into())]),
+        format!("{{\"list\":{{\"items\":[{},{}],\"isNil\":false}}}}", t, one),
+        Js::Arr(vec![jt.clone(), Js::Num("1".into())]),
+      ));
       next.push((
         format!("{{k: {}}}", f),
         Js::Obj(vec![("k".into(), j.clone())]),
         format!("{{\"components\":[{{\"name\":\"k\",\"value\":{},\"isNil\":false}}]}}", t),
+        Js::Obj(vec![("k".into(), jt.clone())]),
       ));
       next.push((
         format!("{{k: {}, m: \"z\"}}", f),
         Js::Obj(vec![("k".into(), j.clone()), ("m".into(), Js::Str("z".into()))]),
         format!("{{\"components\":[{{\"name\":\"k\",\"value\":{},\"isNil\":false}},{{\"name\":\"m\",\"value\":{},\"isNil\":false}}]}}", t, tck_simple("xsd:string", "z")),
+        Js::Obj(vec![("k".into(), jt.clone()), ("m".into(), Js::Str("z".into()))]),
       ));
     }
-    for (f, j, t) in &next {
-      out.push(Sample { feel: f.clone(), expected: j.clone(), tck: Some(t.clone()), class: format!("{}:depth-{}", if f.starts_with('[') { "list" } else { "context" }, depth) });
+    for (f, j, t, jt) in &next {
+      out.push(Sample { feel: f.clone(), expected: j.clone(), tck: Some(t.clone()), expected_tck: Some(jt.clone()), class: format!("{}:depth-{}", if f.starts_with('[') { "list" } else { "context" }, depth) });
     }
     level = next;
   }
   // awkward context keys
   for (key, class) in [("a b", "with-space"), ("k\"q", "with-quote"), ("k\\q", "with-backslash"), ("é日", "non-ascii"), ("tab\tkey", "with-tab"), ("x", "plain")] {
-    out.push(Sample { feel: format!("{{{}: 1}}", feel_string(key)), expected: Js::Obj(vec![(key.to_string(), Js::Num("1".into()))]), tck: None, class: format!("context-key:{}", class) });
+    out.push(Sample { feel: format!("{{{}: 1}}", feel_string(key)), expected: Js::Obj(vec![(key.to_string(), Js::Num("1".into()))]), tck: None, expected_tck: None, class: format!("context-key:{}", class) });
+  }
+  // temporal values at the top level: rendered as strings holding their text through /evaluate
+  for (f, typ, text) in &temporal {
+    out.push(Sample { feel: f.to_string(), expected: Js::Str(text.to_string()), tck: Some(tck_simple(typ, text)), expected_tck: Some(Js::Str(format!("{}:{}", typ, text))), class: format!("temporal:{}", typ) });
   }
   // other kinds: only well-formedness is prescribed
-  for (f, class) in [
-    ("date(\"2020-01-02\")", "date"),
-    ("time(\"10:00:00\")", "time"),
-    ("date and time(\"2020-01-02T10:00:00\")", "date-and-time"),
-    ("duration(\"P1D\")", "days-and-time-duration"),
-    ("duration(\"P1Y\")", "years-and-months-duration"),
-    ("[1..2]", "range"),
-    ("function(a) a", "function"),
-  ] {
-    out.push(Sample { feel: f.to_string(), expected: Js::Null, tck: None, class: format!("other:{}", class) });
+  for (f, class) in [("[1..2]", "range"), ("function(a) a", "function")] {
+    out.push(Sample { feel: f.to_string(), expected: Js::Null, tck: None, expected_tck: None, class: format!("other:{}", class) });
   }
   out
 }
@@ -821,10 +839,11 @@ fn family_render(run: &Run, cnt: &Cnt, thorough: bool) {
           if let Some(res) = envelope(run, &what, &format!("render:tck:{}", s.class), &resp, &replay) {
             cnt.compared.fetch_add(1, Ordering::Relaxed);
             cnt.nontrivial.fetch_add(1, Ordering::Relaxed);
+            let want = s.expected_tck.as_ref().unwrap_or(&s.expected);
             match res.and_then(|d| tck_decode(&d)) {
-              Ok(d) if d.same(&s.expected) => {}
-              Ok(d) => run.violation(&format!("render:tck:value-changed:{}", s.class), &format!("{}: comes back as {} instead of {}", what, d.show(), s.expected.show()), replay.clone()),
-              Err(e) => run.violation(&format!("render:tck:error-instead-of-value:{}", s.class), &format!("{}: `{}` instead of {}", what, e, s.expected.show()), replay.clone()),
+              Ok(d) if d.same(want) => {}
+              Ok(d) => run.violation(&format!("render:tck:value-changed:{}", s.class), &format!("{}: comes back as {} instead of {}", what, d.show(), want.show()), replay.clone()),
+              Err(e) => run.violation(&format!("render:tck:error-instead-of-value:{}", s.class), &format!("{}: `{}` instead of {}", what, e, want.show()), replay.clone()),
             }
           }
         }
